@@ -120,6 +120,8 @@ struct Hist<'a> {
     peer: Vec<Option<SocketAddr>>,
     srv_seen: Vec<String>,
     fd_base: usize,
+    /// replies shorter than the 3-byte tag that were sent and not yet seen by the client: (flow, sequence number, length)
+    short_replies: Vec<(usize, u8, usize)>,
 }
 
 impl<'a> Hist<'a> {
@@ -184,8 +186,20 @@ impl<'a> Hist<'a> {
             .take_delivered()
             .iter()
             .map(|d| {
-                let tag = if d.payload.len() >= 3 { format!("{}.{}", d.payload[0], d.payload[1]) } else { "short".into() };
-                format!("{}/{}.{}", self.flow_of_labels(&d.source, &d.destination), tag, d.payload.len())
+                let lf = self.flow_of_labels(&d.source, &d.destination);
+                let tag = if d.payload.len() >= 3 {
+                    format!("{}.{}", d.payload[0], d.payload[1])
+                } else {
+                    // too short for a tag: it is the oldest short reply of that length sent on the flow its labels name
+                    match self.short_replies.iter().position(|(f, _, l)| f.to_string() == lf && *l == d.payload.len()) {
+                        Some(k) => {
+                            let (f, seq, _) = self.short_replies.remove(k);
+                            format!("{}.{}", f, seq)
+                        }
+                        None => "short".into(),
+                    }
+                };
+                format!("{}/{}.{}", lf, tag, d.payload.len())
             })
             .collect();
         cli.sort();
@@ -215,7 +229,7 @@ pub fn exec(w: &World, timeout_ms: u64, ops: &[Op]) -> Result<String, String> {
         let fd_base = open_fds();
         let mux = vudp::spawn(&core, Duration::from_millis(timeout_ms)).map_err(|e| format!("spawn: {}", e))?;
         let nflows = w.src.len() * ND;
-        let mut h = Hist { w, mux, peer: vec![None; nflows], srv_seen: vec![], fd_base };
+        let mut h = Hist { w, mux, peer: vec![None; nflows], srv_seen: vec![], fd_base, short_replies: vec![] };
         // stale datagrams of an earlier history
         h.settle().await;
         h.srv_seen.clear();
@@ -233,11 +247,17 @@ pub fn exec(w: &World, timeout_ms: u64, ops: &[Op]) -> Result<String, String> {
                 }
                 Op::Reply(f, len) => {
                     if let (Some(to), Some(s)) = (h.peer[*f], w.srv[f % ND].as_ref()) {
-                        let mut p = vec![0u8; (*len).max(3)];
-                        p[0] = *f as u8;
-                        p[1] = seq;
-                        p[2] = 1;
-                        let _ = s.send_to(&p, to);
+                        if *len < 3 {
+                            // an empty / tiny reply is a datagram like any other
+                            h.short_replies.push((*f, seq, *len));
+                            let _ = s.send_to(&vec![0u8; *len], to);
+                        } else {
+                            let mut p = vec![0u8; *len];
+                            p[0] = *f as u8;
+                            p[1] = seq;
+                            p[2] = 1;
+                            let _ = s.send_to(&p, to);
+                        }
                     }
                 }
                 Op::Adv(ms) => {
@@ -291,7 +311,7 @@ fn gen_ops(rng: &mut Rng, nflows: usize, t: u64, n: usize) -> Vec<Op> {
         let f = if rng.chance(5, 6) { *rng.pick(&focus) } else { rng.below(nflows as u64) as usize };
         match rng.below(10) {
             0..=3 => ops.push(Op::Dg(f, *rng.pick(&lens))),
-            4..=6 => ops.push(Op::Reply(f, *rng.pick(&lens))),
+            4..=6 => ops.push(Op::Reply(f, if rng.chance(1, 5) { rng.below(3) as usize } else { *rng.pick(&lens) })),
             _ => ops.push(Op::Adv(*rng.pick(&advs))),
         }
     }
